@@ -130,7 +130,8 @@ CLAIMS = {
          "assumption, tested on every run against the verified brute force (<= 5 elements in the ilp suite, <= 6 in the exact suite). Per run, "
          "in Coq: captured program = model program row for row, answer integral and feasible for the model rows, model decoder = returned "
          "consensus, objective = reported score = opt, consensus well-formed, flagged optimal, selector (CPLEX absent: free-solver fallback) "
-         "and free-solver model. CPLEX itself is not installed: the CPLEX models (optimize on / off, one / all optimal consensuses, the optim1 "
+         "and free-solver model; suite reuse: ONE algorithm object answers six calls in a row (same dataset under schemes agreeing on their "
+         "first three penalties, an equal dataset built anew, another dataset), each answer judged against the optimum of ITS inputs. CPLEX itself is not installed: the CPLEX models (optimize on / off, one / all optimal consensuses, the optim1 "
          "variant, the CPLEX branch of the selector) run on a stand-in for the CPLEX API (harness/standin/cplex: same calls, CBC underneath); their "
          "program = model program row for row, every solution feasible for the model rows and decoded by the model decoder, 'all optimal "
          "consensuses' = the set of ALL minimisers enumerated in Coq; the no-tie rows are proved to lose no optimum (C05_cplex_notie_optimal) "
@@ -198,12 +199,14 @@ CLAIMS = {
          "output). Refinement is decided by translation validation of histories: 3-12 calls drawn from 21 operations on SHARED dataset and "
          "scheme objects; after every call the complete order-sensitive snapshot (bucket listing order, positions dicts, both id maps, flags, "
          "universe, both matrices, name, penalty vectors) is compared in Coq with the initial one, and each output with the output on fresh "
-         "deep copies and with a second call.",
+         "deep copies and with a second call. The ALGORITHM objects are shared too (one instance per configuration for the whole history) and every "
+         "history runs in two phases under two schemes that agree on their first three penalties, so state kept by an algorithm object "
+         "between calls shows as an output different from the one on fresh objects.",
          "Trusted: Coq kernel + vm_compute; harness (deep copies, public accessors); Python aliasing semantics itself is not modelled.",
          "DESIGN.md section 4, C15"),
 }
-TIE = {"C02": ["step6"], "C04": ["delta", "initscore"], "C05": ["step6"], "C06": ["graph", "step6"], "C07": ["graph", "step6"],
-       "C08": ["delta", "moves", "step6"], "C09": ["delta", "initscore"], "C11": ["where"], "C13": ["copeland", "step6"],
+TIE = {"C01": ["kemenymerge"], "C02": ["step6"], "C04": ["delta", "initscore", "biokernel"], "C05": ["step6"], "C06": ["graph", "step6"], "C07": ["graph", "step6"],
+       "C08": ["delta", "moves", "biokernel", "step6"], "C09": ["delta", "initscore", "biokernel"], "C11": ["where"], "C13": ["copeland", "step6"],
        "C19": ["scheme"], "C20": ["markov"]}
 NOT_YET = "check not built yet in this phase (planned: DESIGN.md section 4); no claim is made"
 
@@ -213,9 +216,15 @@ for p in props:
         tech, text, note, ref = CLAIMS[p]
         if p in TIE:
             tech += (" + translation tie: tools/py2coq.py regenerates the kernel(s) " + ", ".join(TIE[p]) +
-                     " from the current source at every run and coq/gen_equiv/Equiv_*.v re-proves them equal to the model's definitions")
+                     " from the current source at every run and coq/gen_equiv/Equiv_*.v re-proves them equal to the model's definitions"
+                     + (" (biokernel: every jitted kernel of the local search translated statement by statement, loops included, and proved "
+                        "to compute the model's improve_one_ranking)" if "biokernel" in TIE[p] else "")
+                     + (" (kemenymerge: __merge with its five while loops and the run-length walk of s_1[2], translated statement by statement and "
+                        "proved to compute the model's merge / run_pairs)" if "kemenymerge" in TIE[p] else ""))
             note += (" The translator tools/py2coq.py (python ast -> Gallina, fail-closed on any construct it does not know) is trusted for "
-                     "the kernels it regenerates; everything else is tied by the correspondence check.")
+                     "the kernels it regenerates; everything else is tied by the correspondence check. A kernel whose current source is outside the "
+                     "translator's subset is reported as 'translation tie unavailable' (a note; the property is then decided by model + "
+                     "correspondence alone); a kernel that translates but is no longer provably the model's is a violation.")
         checks.append({
             "property_id": p,
             "quick_cmd": f"./check {p} --tier quick",
